@@ -66,7 +66,7 @@ def run(ctx):
     runs = []
     for _ in range(ctx.n(1200, 40000)):
         kind = rng.choice(["data3d", "force3d", "emg"])
-        n = rng.choice([1, 2, 5, 9])
+        n = rng.choice([0, 1, 2, 5, 9])     # 0: a block that was created empty ("any frame count")
         blk = mk_block(kind, n, rng)
         ids = {}
         calls, obs = [], []
